@@ -743,6 +743,26 @@ def rule_cache(ctx, rid):
     # first reading: the returned list of slices interpreted on sample label vectors (gap-free labellings 0..K-1, as
     # the cache precondition guarantees); the syntactic reading below serves forms outside the interpreted fragment
     sem = None
+    # the container hands the cache its label vector as a column [samples x 1] (what get_cycle_vector returns): a
+    # difference / cumulative operation applied to the vector as given must run along axis 0 - along the last axis it
+    # sees one element per row and finds no boundary at all.  (After ravel / squeeze / [:, 0] any axis spelling is fine.)
+    if len(exits) == 1:
+        for t_ in subterms(exits[0].value):
+            if t_[0] == 'call' and t_[1] in ('numpy.diff', 'numpy.cumsum', 'numpy.gradient') and t_[2] and t_[2][0] == cv:
+                ax_ = dict(t_[3]).get('axis', t_[2][2] if t_[1] == 'numpy.diff' and len(t_[2]) > 2 else None)
+                if ax_ != C(0):
+                    ctx.violation(rid, fi, c, '%s is applied to the label vector along %s: the container passes a '
+                                  '[samples x 1] column, along its last axis there is a single element per row and no '
+                                  'cycle boundary is found' % (t_[1].split('.')[-1],
+                                                               'its last axis (the default)' if ax_ is None else 'axis %s' % show(ax_)))
+                    return
+            if t_[0] == 'sub' and is_c(t_[2]) and t_[2][1] not in (0,) and t_[1][0] == 'call' \
+                    and t_[1][1] in ('numpy.where', 'numpy.nonzero') and len(t_[1][2]) == 1 \
+                    and cv in set(subterms(t_[1][2][0])) \
+                    and not any(x_[0] == 'meth' and x_[1] in ('ravel', 'flatten', 'squeeze') for x_ in subterms(t_[1][2][0])):
+                ctx.violation(rid, fi, c, 'np.where(..)[%s] of a condition on the [samples x 1] label column is its column '
+                              'coordinate (all zeros), not the sample positions' % t_[2][1])
+                return
     if len(exits) == 1:
         from ..orderval import OrderEval, Undecided as OUndecided, Vec
         try:
